@@ -12,11 +12,11 @@ import (
 
 // RTok is a reference token. Kind is the name of the lexer's exported constant.
 type RTok struct {
-	Kind   string
-	Val    gosym.Str
-	Row    int
-	Col    int
-	PosOK  bool // false when row/column are unspecified (non-ASCII text earlier on the line)
+	Kind  string
+	Val   gosym.Str
+	Row   int
+	Col   int
+	PosOK bool // false when row/column are unspecified (non-ASCII text earlier on the line)
 }
 
 var refKeywords = map[string]string{
@@ -44,11 +44,11 @@ var refOps = []struct{ s, k string }{
 }
 
 type lexer struct {
-	c   *gosym.Ctx
-	u   []gosym.Seg
-	i   int
-	row int
-	col int
+	c     *gosym.Ctx
+	u     []gosym.Seg
+	i     int
+	row   int
+	col   int
 	posOK bool
 }
 
